@@ -1161,6 +1161,40 @@ func runC11(r *Run) {
 		r.violate(b)
 	}
 	r.st.Dist["concurrent.goroutines"] = G
+	r.c11RepeatDecode()
+}
+
+// c11RepeatDecode: the same frame decoded several times in a row - the first time after two garbage collections, so
+// that the process-wide pools are empty and fresh objects are built, then with recycled ones - gives the same result
+// every time. The bodies are gzip streams on which a fresh and a recycled decompressor could disagree.
+func (r *Run) c11RepeatDecode() {
+	a, b := stdCompress([]byte("first member of the body")), stdCompress(bytes.Repeat([]byte("second "), 40))
+	bodies := map[string][]byte{
+		"one member":               a,
+		"two members":              append(append([]byte(nil), a...), b...),
+		"member + empty member":    append(append([]byte(nil), a...), stdCompress(nil)...),
+		"member + trailing bytes":  append(append([]byte(nil), a...), 9, 9, 9),
+		"truncated inside trailer": a[:len(a)-3],
+		"not gzip":                 []byte("plain bytes with the gzip flag set"),
+	}
+	for _, v := range []int{1, 2} {
+		for name, body := range bodies {
+			fr := (&RefFrame{V: v, Type: 3, Gzip: true, Cmd: 50, Body: body, MLenField: -1, BLenField: -1}).encode()
+			runtime.GC()
+			runtime.GC()
+			first, _ := implUnpackBytes(v, newCtx(1, uint8(v)), fr)
+			for k := 0; k < 4; k++ {
+				again, _ := implUnpackBytes(v, newCtx(1, uint8(v)), fr)
+				if again != first {
+					r.violate(Violation{What: "decoding the same frame twice gave different results: the first decode ran on freshly built pool objects, the later ones on recycled ones",
+						Case: fmt.Sprintf("v%d push, gzip flag set, body = %s; %s", v, name, hx(fr)), Impl: "decode " + fmt.Sprint(k+2) + ": " + again, Expect: "decode 1: " + first})
+					break
+				}
+			}
+			r.st.Evaluations++
+			r.count("c11.repeat-decode")
+		}
+	}
 }
 
 func (r *Run) histCase(g *RNG, nops int) {
